@@ -107,6 +107,8 @@ MOS = [
              precedes(RPC("delete"), call(r"= TieredEngine::get_metadata\(", name="engine.get_metadata (ownership check)"), call(r"= TieredEngine::delete\(", name="engine.delete")),
              precedes(RPC("update_metadata"), call(r"= TieredEngine::get_metadata\(", name="engine.get_metadata (ownership check)"), call(r"= TieredEngine::update_metadata\(", name="engine.update_metadata"))),
        functions=[("bin/kyrodb_server.rs", n) for n in ("query", "delete", "update_metadata")], target="kyrodb_server"),
+    MO("O10.4/search_metadata_gate", "build_search_response: with a tenant, needs_metadata (the gate of the per-candidate ownership / namespace re-check) is true before the first candidate is looked at",
+       lambda F: search_metadata_gate(F), functions=[("bin/kyrodb_server.rs", "build_search_response")], target="kyrodb_server"),
     MO("O10.5/cache_scope", "query_cache_scope: tenant index (when there is a tenant), namespace and filter (when present) are hashed into the scope on every path to finish()",
        lambda F: cache_scope(F), functions=[("bin/kyrodb_server.rs", "query_cache_scope")], target="kyrodb_server"),
     MO("O10.4/ownership_test", "query / delete / update_metadata / bulk_query / build_search_response (search results): the ownership test compares the stored __tenant_idx__ with the caller's tenant index, the namespace test the stored namespace with the requested one, "
@@ -202,6 +204,26 @@ def ownership_operands(name, engine_re, fname=None, loop_head=None, clears=False
 def short(t):
     from vlib.mirflow import short_ty
     return re.sub(r"::<[^>]*>$", "", short_ty(t or ""))
+
+
+def search_metadata_gate(F):
+    """build_search_response re-checks ownership / namespace of every candidate only `if needs_metadata`: with a tenant that flag
+    must be true — the `tenant.is_some()` arm sets it to the constant true before the candidate loop starts."""
+    f = "KyroDBServiceImpl::build_search_response"
+    fc = FnCheck(F, f)
+    if fc.fn is None:
+        return [fc.missing()]
+    nm = (fc.fn.debug.get("needs_metadata") or "").strip()
+    if not re.match(r"^_\d+$", nm):
+        return [Result("inconclusive", "needs_metadata not found in the debug info of build_search_response")]
+    SET = stmt(r"^%s = const true;$" % nm, name="needs_metadata = true")
+    LOOP = call(r"= <IntoIter<(kyrodb_engine::)?SearchResult> as Iterator>::next\(", name="first candidate fetched")
+    T = Arm(r"^call Option::<&TenantContext>::is_some$", {"otherwise"}, name="tenant.is_some()")
+    if not T.switches(fc.fn):
+        r = fc.reachable(LOOP)
+        return [Result("violated" if r.verdict == "holds" else "inconclusive", "build_search_response no longer derives needs_metadata from tenant.is_some(): with a tenant and no namespace / filter the ownership "
+                       "re-check of search candidates is skipped", queries=r.queries, seconds=r.seconds, sample={"fn": fc.name, "kind": "FOLLOWS", "A": T.name, "B": SET.name})]
+    return [fc.follows(T, SET, exit="any", exit_ev=LOOP), fc.never(stmt(r"^%s = const false;$" % nm, name="needs_metadata = false"), frm=T)]
 
 
 def cache_scope(F):
